@@ -141,7 +141,9 @@ func sameRecovery(a, b *Rule) bool {
 	}
 	return a.EnableActiveRecovery == b.EnableActiveRecovery && a.RecoveryIntervalMs == b.RecoveryIntervalMs &&
 		a.MaxRecoveryAttempts == b.MaxRecoveryAttempts &&
-		reflect.ValueOf(a.RecoveryCheckFunc).Pointer() == reflect.ValueOf(b.RecoveryCheckFunc).Pointer() &&
+		// (functions cannot be compared - two method values of one method, two closures of one literal share
+		// their code pointer and nothing else: a rule that brings a check function is taken to bring another one)
+		a.RecoveryCheckFunc == nil && b.RecoveryCheckFunc == nil &&
 		reflect.DeepEqual(a.Rule, b.Rule)
 }
 
